@@ -113,6 +113,11 @@ def run(ctx, selftest=False):
         if ua.get("data") != "km/s" or ua.get("pprior") != "d" or ua.get("sang") != "rad":
             ctx.nontrivial(str(sorted(t["events"][0]["g"].items())) + str(sorted((k, str(v)) for k, v in ua.items())))
     ctx.sample(traces[0]); ctx.sample(traces[-1])
+    # off the lattice: every random real-valued problem is posed in a random unit assignment and compared with the unit-free
+    # transcription of the specification (value up to the Jacobian N ln ratio, posterior mean / covariance in physical units)
+    gd.offlattice(ctx, "C07", 60 if quick else 1500, [("dev_ll", "OffLatticeValueUnitFreeUpToJacobian"),
+                                                         ("dev_mean", "OffLatticePosteriorMeanPhysicallyEqual"),
+                                                         ("dev_cov", "OffLatticePosteriorCovariancePhysicallyEqual")])
     verdicts = ctx.validate("GaussTrace", traces, timeout=3000)
     # every clause of the kernel / draw / orbit / twin families is a C07 clause here
     for v in verdicts.values():
